@@ -90,19 +90,21 @@ Visible(cls, c, w, item) ==
      cls caller world target variant      the request
      outcome   "refused"      401 / 403 / 404 / redirect to the login page
                "clienterror"  another 4xx answer
-               "passed"       anything else: 2xx, redirect elsewhere, 5xx or a crash inside the handler body
+               "servererror"  5xx, or an exception escaping the handler that production turns into a 500
+               "passed"       anything else: 2xx, a redirect elsewhere, or the handler body was reached and stopped at a
+                              statement the SQL engine of the harness cannot execute
      status    the HTTP status (0 for a crash)
      changed   some table of the database differs after the call
      seen      items shown (sequence of [proj, user]); mode "rows" when read from the response, "filter" when the
                listing's SQL could not be executed by the engine and only the user bound to its membership filter was
                recorded (fuser), "none" otherwise                                                                *)
-Outcomes == {"refused", "clienterror", "passed"}
+Outcomes == {"refused", "clienterror", "servererror", "passed"}
 WellFormed(k) == /\ k.cls \in Classes /\ k.caller \in Callers /\ k.world \in Worlds
                  /\ k.target \in Targets(k.cls) /\ k.variant \in Variants(k.cls)
                  /\ k.outcome \in Outcomes /\ k.changed \in BOOLEAN /\ k.mode \in {"rows", "filter", "none"}
                  /\ \A i \in 1 .. Len(k.seen) : k.seen[i].proj \in Projects
 
-IsError(k)  == k.outcome \in {"refused", "clienterror"}
+IsError(k)  == k.outcome \in {"refused", "clienterror", "servererror"}
 GateOk(k)   == Allowed(k.cls, k.caller, k.world, k.target) \/ (IsError(k) /\ ~k.changed)
 SeenOk(k)   == \A i \in 1 .. Len(k.seen) : Visible(k.cls, k.caller, k.world, k.seen[i])
 FilterOk(k) == k.mode = "filter" => (k.fuser = k.caller \/ (k.cls = "list_billing" /\ Privileged(k.caller)))
